@@ -8,7 +8,9 @@
 
    Transcribed as the code is after the repairs delivered with C02/C04
    (patches/fix-C02-selector-update-all-matches.diff, fix-C04-merge-addressed-items-only.diff,
-   fix-C04-keep-writecheck-flag.diff, fix-C04-delete-addressed-items-only.diff); each repaired
+   fix-C04-keep-writecheck-flag.diff, fix-C04-delete-addressed-items-only.diff) and with C05
+   (/repo 306e400: a partial update with a selector but no data item fails; db846a9: SelectorMatch
+   treats an item without a value for a selected field as not matching); each repaired
    line is marked [fix].  The in-place writes of copyToSelectedData / copyToAllData /
    RemoveElementFromItem into the array of [existing] are not visible at this level: the store
    hands the engine a copy (patches/fix-C11-functiondata-update-on-copy.diff, see FunctionStore.v). *)
@@ -174,7 +176,9 @@ Section Engine.
         end
     end.
 
-  (* FilterData.SelectorMatch: None = panic (nil or unsupported item field) *)
+  (* FilterData.SelectorMatch: Panic = unsupported item field (SBad: a struct-valued or differently
+     typed field of the same name; excluded by wf_update, never generated);
+     [fix C05 selector-nil-field] an item whose selected field is nil does not match *)
   Fixpoint sel_match_from (ks : list selk) (sel : list (option N)) (it : item) : res bool :=
     match ks, sel with
     | k :: kr, s :: sr =>
@@ -186,7 +190,7 @@ Section Engine.
             | SBad => Panic
             | SField i =>
                 match fld it i with
-                | None => Panic
+                | None => Ok false
                 | Some w => if N.eqb w v then sel_match_from kr sr it else Ok false
                 end
             end
@@ -291,7 +295,7 @@ Section Engine.
     match filter_data fp with
     | Some f =>
         match new with
-        | [] => Panic                            (* &newData[0] *)
+        | [] => Ok (ex, false)                   (* [fix C05 selector-without-data] was &newData[0] on an empty list *)
         | n0 :: _ =>
             match f_sel f with
             | None => Ok (ex, true)              (* copyToSelectedData without selector: nothing happens *)
